@@ -16,7 +16,19 @@ def custom(ctx):
     ctx.extra["model_comparison"] = "none: the model has no bytes to predict; the run below is the property's own oracle"
 
 
+def shrink(req):
+    """history requests: drop one item of the sequence at a time (two items is the smallest history)"""
+    f = req.split("\t")
+    if f[0] != "C07.history" or len(f) <= 3:
+        return
+    for i in range(1, len(f)):
+        yield "\t".join(f[:i] + f[i + 1:])
+
+
 def nontrivial(req, obs):
+    if req.startswith("C07.history"):
+        # both back ends are in the sequence and at least one item is an accepted program
+        return "backends=2" in obs and "ok[" in obs
     # accepted-program streams: the compilation succeeded; diagnostics streams: the program really is rejected
     if "\tdiag:" in req or "\tsrc:" in req:
         return obs.startswith("err")
@@ -25,8 +37,8 @@ def nontrivial(req, obs):
 
 SPEC = {
     "id": "C07",
-    "gens": ["HashSites", "EnumRange"],
-    "lean_modules": ["RsslVerif.Thm.C07", "RsslVerif.Lemmas.EnumRange", "RsslVerif.Thm.C02", "RsslVerif.Thm.C15"],
+    "gens": ["HashSites", "EnumRange", "GlobalState", "Reserved"],
+    "lean_modules": ["RsslVerif.Thm.C07", "RsslVerif.Lemmas.EnumRange", "RsslVerif.Model.History", "RsslVerif.Thm.C02", "RsslVerif.Thm.C15"],
     "theorems": [T + n for n in [
         "sort_perm_invariant", "collectSort_perm_invariant", "sortBy_key_perm_invariant",
         "lookup_perm_invariant", "fold_perm_invariant", "firstFailure_ok_perm_invariant", "firstFailure_perm_invariant",
@@ -35,7 +47,11 @@ SPEC = {
         "scoped_declarations_unobserved", "no_other_nondeterminism",
         # worked example of a commutative fold: Context::end_enum transcribed (Model/EnumRange.lean)
         "end_enum_shape_as_modelled", "end_enum_type_or_error_order_independent", "end_enum_panics_order_independent",
-        "gather_panic_message_order_dependent", "end_enum_order_independent", "blame_first_order_dependent"]] + [
+        "gather_panic_message_order_dependent", "end_enum_order_independent", "blame_first_order_dependent",
+        # history independence: no process-wide state (tie: Gen.GlobalState), and what that buys (Model/History.lean)
+        "history_independent_of_stateless", "runSeq_eq_map_fresh", "history_independent_of_no_state",
+        "real_reserved_set_history_independent", "once_lock_history_dependent",
+        "no_process_wide_state", "no_ambient_inputs", "global_state_scan_not_empty"]] + [
         "RsslVerif.Lemmas.EnumRange.foldl_perm_of_invariant",
         # the two non-trivial sites are proved order independent over the models of the code itself
         "RsslVerif.Thm.C02.closure_order_independent",      # usage-analysis fixpoint (recurse) vs key iteration order
@@ -45,6 +61,7 @@ SPEC = {
     "harness": "c07",
     "custom": custom,
     "nontrivial": nontrivial,
+    "shrink": shrink,
     "rule": "accepted programs: generated shader files (up to 10 resources, 6 helpers with call graphs, 5 static globals threaded on "
             "Metal, 3 pipelines) x 4 targets, name-clash programs, programs whose functions share their name with a struct / enum / "
             "cbuffer of the same scope (accepted since fix 31dddea) x 4 targets, buffer addresses in 2-4 bind groups with tied inline "
@@ -55,7 +72,16 @@ SPEC = {
             "layout check; pipeline errors; exporter "
             "errors on every target) and the 504 rejected inputs of the repository's typer tests, each compiled 8 times in one "
             "process and once in each of 3 fresh processes; all digests (sources, stages, metadata, state, fully rendered "
-            "diagnostics) must be equal; non-trivial = the compilation succeeded (accepted streams) / was rejected (diagnostics streams)",
+            "diagnostics) must be equal; non-trivial = the compilation succeeded (accepted streams) / was rejected (diagnostics streams). "
+            "History independence (C07.history, 60 quick / 400 thorough sequences of 2-6 requests + 4 corpus sequences): programs "
+            "declaring identifiers that exactly ONE back end reserves (taken from the RESERVED_NAMES tables of the tree under check, "
+            "287 names, ~1290 (name, role) pairs the front end accepts as local / function / struct / global / parameter / member) "
+            "for an HLSL target and for Metal, mixed with other targets, no-pipeline mode, the same input with a client define, other "
+            "such programs, generated / name-clash / shared-name programs, rejected programs and (thorough) the repository's inputs: "
+            "every item is compiled alone in a fresh process, after the others in fresh processes in 4 orders (as listed, reversed, "
+            "rotated, shuffled), and in the long-running harness process; each result must equal the item's alone-in-a-fresh-process "
+            "result; a failure is shrunk to the shortest sequence and names the first differing emitted line; non-trivial = both "
+            "back ends in the sequence and an accepted item",
     "level_text": "Proof of the logic, test of the runtime: every shape of hash-iteration site (collect+sort with an antisymmetric "
                   "order or an injective key, insert under distinct keys, commutative fold, check-only loop) is proved invariant "
                   "under every permutation of the iteration order; Context::end_enum - five loops over a Vec drained from a HashMap "
@@ -63,9 +89,17 @@ SPEC = {
                   "independent as a whole, including the location and payload of its range error; the translator's inventory of "
                   "traversals of hash ordered containers (HashMap/HashSet and Vecs filled from them) in the current source is "
                   "proved to contain only reviewed sites WITH THE REVIEWED BODY (fingerprint per loop body), and a body that can "
-                  "leave early, builds a diagnostic or keeps a first value is never accepted as a commutative fold. The actual "
+                  "leave early, builds a diagnostic or keeps a first value is never accepted as a commutative fold. History "
+                  "independence: a process whose step never reads process-wide state gives every request, after any history "
+                  "and in any permutation, its fresh-process result (proved for all step functions, Model/History.lean); the "
+                  "regenerated inventory Gen.GlobalState proves the premise about the source: no `static` item at all, no "
+                  "thread_local!/lazy_static!, no OnceLock/OnceCell/LazyLock/Mutex/RwLock/Atomic*/Once/UnsafeCell/Arc, no "
+                  "Box::leak/mem::forget/unsafe, no environment/clock/process/thread/randomness/hasher-state/address reads, "
+                  "only path dependencies and no build scripts; the seeded OnceLock variant is transcribed and proved history "
+                  "DEPENDENT with the regenerated reserved lists (`main` on Metal after one HLSL request). The actual "
                   "SipHash seeds are runtime behaviour no model exhibits: they are exercised by repeated in-process and "
-                  "fresh-process compilations of accepted and rejected programs compared byte for byte.",
+                  "fresh-process compilations of accepted and rejected programs compared byte for byte; what a process "
+                  "keeps between two compilations is exercised by request sequences compared with fresh processes.",
     "trusted_base": [
         "Lean 4.33 kernel; axioms propext / Classical.choice / Quot.sound only",
         "tools/gens/c07.py: heuristic inventory (regular expressions per file and function) of traversals of hash ordered "
@@ -79,6 +113,16 @@ SPEC = {
         "hypotheses of end_enum_order_independent are typer invariants read off the code: enum values are integer-like, value "
         "ids and names distinct, one symbol per enumerator name in the parent scope",
         "Rust's sort/sort_by return a sorted permutation; HashMap = finite map with unspecified iteration order",
+        "tools/gens/c07.py GlobalState: regular expressions over the comment- and literal-stripped text of every non-test .rs "
+        "file of the 10 compiler crates (`static NAME:` anywhere, state macros, shared-state type names, leak/unsafe, ambient "
+        "reads) and the [dependencies] / build.rs of their manifests; state hidden behind a macro of an external crate would "
+        "show up as an external dependency, state built by a proc-macro of the workspace itself would not be seen; "
+        "metal_invoker (external process for Metal validation, not part of `compile`'s outputs) is not scanned",
+        "Model/History.lean stepReal / stepOnceLock transcribe only the reserved-set part of NameMap::build (the full build "
+        "is the C15 model); the step from `no static state in the source` to `the step function does not read state` is the "
+        "language guarantee of safe Rust (assumption below), not a theorem",
     ],
-    "assumptions": ["single-threaded safe Rust has no other source of nondeterminism than hash iteration order"],
+    "assumptions": ["single-threaded safe Rust has no other source of nondeterminism than hash iteration order",
+                    "safe Rust without `static` items, thread locals, leaks and ambient reads cannot carry information from one "
+                    "call of `compile` to the next except through its arguments (the include handler is the caller's)"],
 }
